@@ -125,8 +125,10 @@ theorem tie_overflow_check_before_set :
     (∀ (P : Params) (cfg : Cfg) (w : Nat) (s : Bytes) (v : Val), convPrim P cfg (.int w) s = some v →
       ∃ i, v = .int i ∧ inRangeInt w i = true) ∧
     (∀ (P : Params) (cfg : Cfg) (w : Nat) (s : Bytes) (v : Val), convPrim P cfg (.uint w) s = some v →
-      ∃ n, v = .uint n ∧ inRangeUint w n = true) :=
-  ⟨by decide, model_int_in_range, model_uint_in_range⟩
+      ∃ n, v = .uint n ∧ inRangeUint w n = true) ∧
+    (∀ (P : Params) (cfg : Cfg) (s : Bytes) (v : Val), convPrim P cfg .f32 s = some v →
+      ∃ b64 b32 inf, (P s).f = some (b64, b32, false, inf) ∧ v = .flt b32) :=
+  ⟨by decide, model_int_in_range, model_uint_in_range, model_f32_no_overflow⟩
 
 /-! ### the stages of setFieldValue -/
 
@@ -205,8 +207,8 @@ theorem model_depth_check (P : Params) (cfg : Cfg) (nest : Nest) (g : Getter) (d
   simp [fieldAction, hm, hs, hd]
 
 /-- **The depth test (`depth > maxDepth`) is the first statement of `bindFieldsWithDepth`, before the loop that
-    descends; the descent passes `depth + 1`, `setNestedStructWithDepth` hands the depth on unchanged and
-    `bindFromSource` starts at 0**; the model: a nested struct at depth + 1 beyond the limit is the depth error
+    descends; the descent passes `depth + 1`, `setNestedStructWithDepth` hands the depth on unchanged - and makes the
+    same test first, before it looks at the JSON form of the value (K04k) - and `bindFromSource` starts at 0**; the model: a nested struct at depth + 1 beyond the limit is the depth error
     naming the field, and the nested bind is not entered. -/
 theorem tie_depth_check_before_descent :
     guardAt "_ > .maxDepth" bindFieldsWithDepth_items = some 0 ∧
@@ -214,11 +216,13 @@ theorem tie_depth_check_before_descent :
     onlyGuard "_ > .maxDepth" bindFieldsWithDepth_items = true ∧
     firstWith "setNestedStructWithDepth(+1)" bindFieldsWithDepth_loop ≠ none ∧
     firstWith "bindFieldsWithDepth" setNestedStruct_items ≠ none ∧
+    guardAt "_ > .maxDepth" setNestedStruct_items = some 0 ∧
+    dominates "_ > .maxDepth" "Unmarshal" setNestedStruct_items = true ∧
     firstWith "bindFieldsWithDepth(0)" bindFromSource_items ≠ none ∧
     (∀ (P : Params) (cfg : Cfg) (nest : Nest) (g : Getter) (depth : Nat) (f : FieldInfo) (cur : Val),
       isMapTy f.ty = false → isStructTy f.ty = true → cfg.maxDepth < depth + 1 →
       fieldAction P cfg nest g depth f cur = .inr (.err (.bind f.name .depth))) :=
-  ⟨by decide, by decide, by decide, by decide, by decide, by decide, model_depth_check⟩
+  ⟨by decide, by decide, by decide, by decide, by decide, by decide, by decide, by decide, model_depth_check⟩
 
 /-! ### the order inside the loop of bindFieldsWithDepth -/
 
